@@ -619,8 +619,8 @@ func mirrorTTU(m *Model) bool {
 		}
 		self := []Restriction{{Type: td.Name}}
 		td.Rels = append(td.Rels,
-			Relation{Name: "q1", Rw: &Rewrite{Kind: This}, Restr: append([]Restriction{{Type: m.Types[0].Name}}, self...)},
-			Relation{Name: "q2", Rw: &Rewrite{Kind: This}, Restr: append([]Restriction{{Type: m.Types[0].Name}}, self...)},
+			Relation{Name: "q1", Rw: &Rewrite{Kind: This}, Restr: self},
+			Relation{Name: "q2", Rw: &Rewrite{Kind: This}, Restr: self},
 			Relation{Name: "mir", Rw: &Rewrite{Kind: Union, Kids: []*Rewrite{{Kind: This}, {Kind: TTU, Rel: "q1", Tupleset: "q2"}, {Kind: TTU, Rel: "q2", Tupleset: "q1"}}}, Restr: []Restriction{{Type: m.Types[0].Name}}})
 		return true
 	}
